@@ -538,6 +538,15 @@ func (c11Prop) Gen(seed uint64, tier string, i int) Case {
 	c.Engine.LookbackMs = GenLookback(r)
 	c.Engine.Opt = Pick(r, []string{"none", "default"})
 	c.Dataset = GenDataset(r.Fork(), c.Window, c.Engine.LookbackMs, 40, r.P(0.3), r.P(0.2))
+	// no negative zeros here: min/max/topk keep the first of equal values, so which zero survives
+	// depends on the order of the series - in the reference engine as well
+	for si := range c.Dataset.Series {
+		for k, sm := range c.Dataset.Series[si].Samples {
+			if sm.V == 0 {
+				c.Dataset.Series[si].Samples[k].V = 0
+			}
+		}
+	}
 	if r.P(0.45) {
 		c.Query = Pick(r, c11Biased)
 	} else {
